@@ -294,10 +294,13 @@ func (m *Model) DeleteMode(id string, opts ...resource.WriteOption) error {
 
 func (m *Model) deleteMode(id string, opts ...resource.WriteOption) error {
 	active := m.activeMode.Get().(*traits.ElectricMode)
-	if mode, exists := m.findMode(id); exists && mode.Id == active.Id {
-		// (compared through the stored mode: with an id interceptor configured, id may be another spelling of it)
+	if mode, exists := m.findMode(id); exists {
+		// (compared through the stored modes both ids resolve to: with an id interceptor configured, id and the
+		// active mode's id may be different spellings of the same mode)
 		// (a mode that does not exist is absent, whatever id the active mode carries: a fresh model's has none)
-		return ErrDeleteActiveMode
+		if activeStored, ok := m.findMode(active.Id); ok && proto.Equal(mode, activeStored) {
+			return ErrDeleteActiveMode
+		}
 	}
 
 	msg, err := m.modes.Delete(id, opts...)
